@@ -175,4 +175,250 @@ theorem single_failure_perm {reg reg' : List Template} (hp : reg.Perm reg') (nd 
   rw [firstFailing_eq_head, firstFailing_eq_head, this, h1]
   exact ⟨rfl, rfl⟩
 
+/-! ## 3. `Registry.Add` over a permuted list of files -/
+
+open SoyVerif.Model.Registry (Tmpl Reg addTemplates splitHeaderParams findNamespace add addAll toCheck)
+
+/-- the templates of a file, as `Add` would append them — without the duplicate-name test -/
+def collect (fileName text nsName : Bytes) (nsAe : Autoescape) : List Cmd → Option Cmd → Option (List Tmpl)
+  | [], _ => some []
+  | c :: rest, prev =>
+    match c with
+    | .template pos name (.mk bpos cmds) ae _ =>
+      let docParams : List Check.Param := match prev with
+        | some (.soyDoc _ ps) => ps.map fun p => { name := p.name, optional := p.optional }
+        | _ => []
+      let (hps, body) := splitHeaderParams cmds
+      if !hps.isEmpty && !docParams.isEmpty then none
+      else
+        let t : Tmpl := { name := name, params := docParams ++ hps, body := .mk bpos body, autoescape := ae,
+                          nsName := nsName, nsAutoescape := nsAe, pos := pos, file := fileName, text := text }
+        (collect fileName text nsName nsAe rest (some c)).map (t :: ·)
+    | _ => collect fileName text nsName nsAe rest (some c)
+
+/-- appending `ts` one by one never meets a name that is already there -/
+def fresh : Reg → List Tmpl → Bool
+  | _, [] => true
+  | reg, t :: r => !(reg.any fun u => u.name == t.name) && fresh (reg ++ [t]) r
+
+theorem fresh_append : ∀ (reg : Reg) (a b : List Tmpl), fresh reg (a ++ b) = (fresh reg a && fresh (reg ++ a) b)
+  | reg, [], b => by simp [fresh]
+  | reg, t :: r, b => by
+    simp only [List.cons_append, fresh, fresh_append (reg ++ [t]) r b, List.append_assoc, List.singleton_append,
+      List.nil_append, Bool.and_assoc]
+
+/-- `Add`'s template loop = collect, then the duplicate test -/
+theorem addTemplates_eq (fn text ns : Bytes) (ae : Autoescape) : ∀ (cmds : List Cmd) (prev : Option Cmd) (reg : Reg),
+    addTemplates fn text ns ae cmds prev reg =
+      (collect fn text ns ae cmds prev).bind fun ts => if fresh reg ts then some (reg ++ ts) else none
+  | [], prev, reg => by simp [addTemplates, collect, fresh]
+  | c :: rest, prev, reg => by
+    cases c with
+    | template pos name body ae' pr =>
+      obtain ⟨bpos, cmds⟩ := body
+      have key : ∀ (docParams : List Check.Param),
+          (if (!(splitHeaderParams cmds).1.isEmpty && !docParams.isEmpty) = true then none
+           else if (reg.any fun t => t.name == name) = true then none
+           else addTemplates fn text ns ae rest (some (Cmd.template pos name (Block.mk bpos cmds) ae' pr))
+             (reg ++ [{ name := name, params := docParams ++ (splitHeaderParams cmds).1,
+                        body := Block.mk bpos (splitHeaderParams cmds).2, autoescape := ae', nsName := ns,
+                        nsAutoescape := ae, pos := pos, file := fn, text := text }])) =
+          (if (!(splitHeaderParams cmds).1.isEmpty && !docParams.isEmpty) = true then none
+           else (collect fn text ns ae rest (some (Cmd.template pos name (Block.mk bpos cmds) ae' pr))).map
+             ({ name := name, params := docParams ++ (splitHeaderParams cmds).1,
+                body := Block.mk bpos (splitHeaderParams cmds).2, autoescape := ae', nsName := ns,
+                nsAutoescape := ae, pos := pos, file := fn, text := text } :: ·)).bind
+            fun ts => if fresh reg ts then some (reg ++ ts) else none := by
+        intro docParams
+        by_cases hboth : (!(splitHeaderParams cmds).1.isEmpty && !docParams.isEmpty) = true
+        · simp only [hboth, if_true, Option.bind_none]
+        · simp only [hboth, Bool.false_eq_true, if_false]
+          by_cases hdup : (reg.any fun t => t.name == name) = true
+          · simp only [hdup, if_true]
+            cases collect fn text ns ae rest (some (Cmd.template pos name (Block.mk bpos cmds) ae' pr)) with
+            | none => rfl
+            | some ts => simp [fresh, hdup]
+          · simp only [hdup, Bool.false_eq_true, if_false]
+            rw [addTemplates_eq fn text ns ae rest _ _]
+            cases collect fn text ns ae rest (some (Cmd.template pos name (Block.mk bpos cmds) ae' pr)) with
+            | none => rfl
+            | some ts =>
+              have : (reg.any fun t => t.name == name) = false := by simpa using hdup
+              simp [fresh, this]
+      unfold addTemplates collect
+      cases prev with
+      | none => exact key _
+      | some p => cases p <;> exact key _
+    | _ => unfold addTemplates collect; exact addTemplates_eq fn text ns ae rest _ reg
+
+/-- the templates a file contributes (`none`: no namespace, or soydoc and header params together) -/
+def fileTmpls (f : SoyFile) : Option (List Tmpl) :=
+  match findNamespace f.body with
+  | none => none
+  | some (ns, ae) => collect f.name f.text ns ae f.body none
+
+def fileOk (f : SoyFile) : Bool := (fileTmpls f).isSome
+def fileTs (f : SoyFile) : List Tmpl := (fileTmpls f).getD []
+
+theorem add_eq (reg : Reg) (f : SoyFile) :
+    add reg f = if fileOk f && fresh reg (fileTs f) then some (reg ++ fileTs f) else none := by
+  unfold add fileOk fileTs fileTmpls
+  cases findNamespace f.body with
+  | none => rfl
+  | some nsae =>
+    obtain ⟨ns, ae⟩ := nsae
+    simp only [addTemplates_eq]
+    cases collect f.name f.text ns ae f.body none with
+    | none => rfl
+    | some ts => simp
+
+/-- `Add` over a list of files, in closed form -/
+theorem addAll_eq : ∀ (fs : List SoyFile) (reg : Reg),
+    addAll reg fs = if fs.all fileOk && fresh reg (fs.flatMap fileTs) then some (reg ++ fs.flatMap fileTs) else none
+  | [], reg => by simp [addAll, fresh]
+  | f :: fs, reg => by
+    unfold addAll
+    rw [add_eq]
+    by_cases h1 : (fileOk f && fresh reg (fileTs f)) = true
+    · simp only [h1, if_true, Option.bind_some, addAll_eq fs, List.all_cons, List.flatMap_cons, fresh_append,
+        List.append_assoc]
+      simp only [Bool.and_eq_true] at h1
+      simp [h1.1, h1.2]
+    · simp only [h1, Bool.false_eq_true, if_false, Option.bind_none, List.all_cons, List.flatMap_cons, fresh_append]
+      have : (fileOk f && fresh reg (fileTs f)) = false := by simpa using h1
+      cases hf : fileOk f <;> simp [hf] at this ⊢
+      simp [this]
+
+theorem fresh_nil_iff : ∀ (reg : Reg) (ts : List Tmpl), fresh reg ts = true ↔
+    (∀ t ∈ ts, ∀ u ∈ reg, u.name ≠ t.name) ∧ (ts.map (·.name)).Nodup
+  | reg, [] => by simp [fresh]
+  | reg, t :: r => by
+    have ih := fresh_nil_iff (reg ++ [t]) r
+    have hany : (reg.any fun u => u.name == t.name) = false ↔ ∀ u ∈ reg, u.name ≠ t.name := by
+      constructor
+      · intro h u hu e
+        have : (reg.any fun u => u.name == t.name) = true := List.any_eq_true.mpr ⟨u, hu, by simpa using e⟩
+        rw [h] at this; cases this
+      · intro h
+        cases hh : (reg.any fun u => u.name == t.name) with
+        | false => rfl
+        | true =>
+          obtain ⟨u, hu, e⟩ := List.any_eq_true.mp hh
+          exact absurd (by simpa using e) (h u hu)
+    unfold fresh
+    rw [Bool.and_eq_true, ih, List.map_cons, List.nodup_cons]
+    constructor
+    · rintro ⟨h1, h2, h3⟩
+      have h1' : (reg.any fun u => u.name == t.name) = false := by simpa using h1
+      have h1'' := hany.mp h1'
+      refine ⟨?_, ?_, h3⟩
+      · intro x hx u hu
+        rcases List.mem_cons.mp hx with rfl | hx
+        · exact h1'' u hu
+        · exact h2 x hx u (List.mem_append.mpr (Or.inl hu))
+      · intro hm
+        obtain ⟨x, hx, e⟩ := List.mem_map.mp hm
+        exact h2 x hx t (List.mem_append.mpr (Or.inr (by simp))) e.symm
+    · rintro ⟨h1, h2, h3⟩
+      refine ⟨?_, ?_, h3⟩
+      · have := hany.mpr (fun u hu => h1 t (by simp) u hu)
+        simp [this]
+      · intro x hx u hu
+        rcases List.mem_append.mp hu with hu | hu
+        · exact h1 x (List.mem_cons_of_mem _ hx) u hu
+        · have : u = t := by simpa using hu
+          subst this
+          intro e
+          exact h2 (List.mem_map.mpr ⟨x, hx, e.symm⟩)
+
+theorem fresh_nil_perm {ts ts' : List Tmpl} (hp : ts.Perm ts') : fresh [] ts = fresh [] ts' := by
+  have h1 := fresh_nil_iff [] ts
+  have h2 := fresh_nil_iff [] ts'
+  have hn : (ts.map (·.name)).Nodup ↔ (ts'.map (·.name)).Nodup := (hp.map (·.name)).nodup_iff
+  cases ha : fresh [] ts <;> cases hb : fresh [] ts' <;> simp_all
+
+/-- FULL: `Registry.Add` over the files of a bundle in two different orders: the same accept/reject
+    decision; if accepted, the registries are permutations of each other and all names are distinct -/
+theorem addAll_perm {fs fs' : List SoyFile} (hp : fs.Perm fs') :
+    (addAll [] fs).isSome = (addAll [] fs').isSome ∧
+    ∀ reg reg', addAll [] fs = some reg → addAll [] fs' = some reg' →
+      reg.Perm reg' ∧ (reg.map (·.name)).Nodup := by
+  have hflat : (fs.flatMap fileTs).Perm (fs'.flatMap fileTs) := List.Perm.flatMap_right _ hp
+  have hall : fs.all fileOk = fs'.all fileOk := hp.all_eq
+  have hfresh := fresh_nil_perm hflat
+  rw [addAll_eq, addAll_eq, hall, hfresh]
+  by_cases hc : (fs'.all fileOk && fresh [] (fs'.flatMap fileTs)) = true
+  · simp only [hc, if_true, List.nil_append, Option.isSome_some, true_and, Option.some.injEq]
+    intro reg reg' h1 h2
+    subst h1; subst h2
+    simp only [Bool.and_eq_true] at hc
+    have hnd := ((fresh_nil_iff [] _).mp hc.2).2
+    exact ⟨hflat, ((hflat.map (·.name)).nodup_iff).mpr hnd⟩
+  · simp only [hc, Bool.false_eq_true, if_false, true_and]
+    intro reg reg' h1
+    cases h1
+
+/-! ## 4. the compile decision -/
+
+/-- `Bundle.Compile` as far as the two models go: `Registry.Add` for every file, then `CheckDataRefs` -/
+def compileOk (fs : List SoyFile) : Bool :=
+  match addAll [] fs with
+  | none => false
+  | some reg => check (toCheck reg)
+
+theorem toCheck_names (reg : Reg) : (toCheck reg).map (·.name) = reg.map (·.name) := by
+  unfold toCheck
+  simp [List.map_map, Function.comp_def]
+
+/-- FULL (`compile_order_independent`, decision): the models accept a bundle iff they accept the same
+    files added in any other order -/
+theorem compile_decision_perm {fs fs' : List SoyFile} (hp : fs.Perm fs') : compileOk fs = compileOk fs' := by
+  obtain ⟨hsome, hreg⟩ := addAll_perm hp
+  unfold compileOk
+  cases h1 : addAll [] fs with
+  | none =>
+    cases h2 : addAll [] fs' with
+    | none => rfl
+    | some r => simp [h1, h2] at hsome
+  | some reg =>
+    cases h2 : addAll [] fs' with
+    | none => simp [h1, h2] at hsome
+    | some reg' =>
+      obtain ⟨hperm, hnd⟩ := hreg reg reg' h1 h2
+      simp only
+      exact check_perm (reg := toCheck reg) (reg' := toCheck reg') (by unfold toCheck; exact hperm.map _)
+        (by rw [toCheck_names]; exact hnd)
+
+/-- … and if exactly one template is rejected, it is the one reported under both orders -/
+theorem compile_single_failure_perm {fs fs' : List SoyFile} (hp : fs.Perm fs') (reg reg' : Reg)
+    (h1 : addAll [] fs = some reg) (h2 : addAll [] fs' = some reg') (t : Template)
+    (hone : failing (toCheck reg) = [t]) :
+    firstFailing (toCheck reg') = some t ∧ firstFailing (toCheck reg) = some t := by
+  obtain ⟨_, hreg⟩ := addAll_perm hp
+  obtain ⟨hperm, hnd⟩ := hreg reg reg' h1 h2
+  exact single_failure_perm (reg := toCheck reg) (reg' := toCheck reg') (by unfold toCheck; exact hperm.map _)
+    (by rw [toCheck_names]; exact hnd) t hone
+
+/-! ## non-vacuity -/
+
+def fileA : SoyFile :=
+  { name := [97], text := [], body := [.namespace 0 [110, 97] .unspecified,
+      .template 0 [110, 97, 46, 116] (.mk 0 (.cons (.call 0 [110, 98, 46, 117] false none .nil) .nil)) .unspecified false] }
+def fileB : SoyFile :=
+  { name := [98], text := [], body := [.namespace 0 [110, 98] .unspecified,
+      .template 0 [110, 98, 46, 117] (.mk 0 (.cons (.rawText 0 [120]) .nil)) .unspecified false] }
+/-- a file whose template uses an undeclared variable -/
+def fileBad : SoyFile :=
+  { name := [99], text := [], body := [.namespace 0 [110, 99] .unspecified,
+      .template 0 [110, 99, 46, 118] (.mk 0 (.cons (.print 0 (.dataRef 0 [122] .nil) []) .nil)) .unspecified false] }
+
+/-- a cross-file call: accepted in both orders (the callee is found whether it was added before or after) -/
+example : compileOk [fileA, fileB] = true ∧ compileOk [fileB, fileA] = true := by decide
+/-- one violation: rejected in every order, and the same template is reported -/
+example : compileOk [fileA, fileB, fileBad] = false ∧ compileOk [fileBad, fileB, fileA] = false := by decide
+example : ((addAll [] [fileA, fileB, fileBad]).map fun r => (firstFailing (toCheck r)).map (·.name)) =
+    ((addAll [] [fileBad, fileB, fileA]).map fun r => (firstFailing (toCheck r)).map (·.name)) := by decide
+/-- the hypothesis of distinct names is enforced by `Add` itself: the same file twice is rejected -/
+example : compileOk [fileB, fileB] = false := by decide
+
 end SoyVerif.Props.C13b
